@@ -1,7 +1,7 @@
 """C03 — regular-expression strings and `matches` agree with regex semantics.
 
  (1) Lean: Spec/Re.lean + `ends_iff_Matches`; Thm/C03.lean (range_table: the counted-repeat emit table of re.c is
-     equivalent to `range n m e`; vm soundness on the bytecode model; matches_iff for the scan mode);
+     equivalent to `range n m e`; vm soundness on the bytecode model; matches_sound_partial for the scan mode);
  (2) spec-level correspondence: generated regex ASTs (<= 12 nodes, all-greedy or all-lazy, classes, escapes, anchors,
      word boundaries, /i /s, nocase ascii wide fullword, atoms forced into groups / branches / counted repeats) are
      printed as YARA text, run through the real compiler+scanner (complete match list) and the compiled Lean spec;
@@ -23,8 +23,9 @@ MANIFEST = dict(
          "counted repeats denotes exactly e{n,m} for all n <= m (range_table, range_concat); forward-from-the-atom + exhaustive-backward-from-the-atom equals a whole match "
          "with atoms inside groups, alternation branches and + bodies (decompose); everything the VM model reports (callback lengths, *matches, also in the scan mode of "
          "`matches`) comes from a reachable fiber at RE_OPCODE_MATCH (vm_reports_reachable, any bytecode); and on the code of the emit model the VM is SOUND for every expression "
-         "built from literals, ., \\w\\W\\s\\S\\d\\D, ^ $ \\b \\B, .{n,m}, concatenation, alternation, * and + (greedy or lazy), bracket classes, byte mode, forward code (vm_sound_partial). "
-         "NOT proved: counted repeats e{n,m} of a non-dot body inside the VM proof (counter stack), wide mode, backward code, scan mode, VM completeness with "
+         "built from literals, ., \\w\\W\\s\\S\\d\\D, ^ $ \\b \\B, .{n,m}, concatenation, alternation, *, + and ? (greedy or lazy), bracket classes, byte mode, forward code, with "
+         "or without the scan mode (vm_sound_partial; matches_sound_partial: a true `matches` verdict implies a matching substring). "
+         "NOT proved: counted repeats e{n,m} of a non-dot body other than e? inside the VM proof (counter stack), wide mode, backward code, VM completeness with "
          "epsilon-loops, atom extraction, Aho-Corasick. That gap is covered by SAMPLING on "
          "every run: generated regexes (<= 12 nodes, all-greedy / all-lazy, anchors, word boundaries, classes, /i /s, nocase ascii wide fullword, atoms forced into groups, "
          "branches and repeats) x buffers (< 1024 bytes) through the real engine vs. the compiled Lean specification (complete match lists, `matches` verdicts through literal "
@@ -33,8 +34,8 @@ MANIFEST = dict(
     design_ref="DESIGN.md §4 D6/D7, §5 C03",
     note=core.TB + "The regex printer and the oracle comparator (vf/checks/re_common.py) are trusted (the printer is inside the AST tie). Spec decisions: which admissible "
                    "length is reported is not constrained beyond membership; with `fullword` an offset must be reported when every admissible length is delimited and must not when "
-                   "none is; ascii+wide strings may report a length of either encoding. Seven listed findings (known_findings.json: empty matches, wide+fullword without atom, "
-                   "nullable counted repeats, `matches` at the end of the operand, dead fiber after a zero-width instruction (abort), zero-width loop (hang), lazy dot chains) are "
+                   "none is; ascii+wide strings may report a length of either encoding. Four listed findings (known_findings.json: empty matches, "
+                   "nullable counted repeats, zero-width loop (hang), lazy dot chains) are "
                    "excused only for their signature; a model/code tie broken without a property-level failing input is reported as `no-failing-input-found`.")
 
 LETTERS = [0x61, 0x62, 0x63]
@@ -267,15 +268,41 @@ MODS = [("", "a"), ("", "a"), ("nocase", "ai"), ("wide", "w"), ("ascii wide", "a
         ("nocase wide", "wi"), ("ascii wide nocase fullword", "awif"), ("ascii", "a"), ("ascii wide fullword", "awf"), ("nocase fullword", "aif")]
 
 
+def gen_atom_run(r):
+    """`x.abc.y`: a run of 6-12 characters and dots whose best 4-token atom window lies inside the run and begins with
+    a dot (atoms.c trims the leading wildcard; the atom's bytes and its code position must stay in step)"""
+    def low():
+        u = r.random()
+        if u < 0.5: return ("ch", r.choice([0x20, 0x00, 0xFF, 0x20]))
+        if u < 0.8: return ("dot",)
+        return ("ch", r.choice(LETTERS))
+    left = [("ch", r.choice([0x78, 0x20, 0x61, 0x2D]))] + [low() for _ in range(r.choice([0, 0, 1, 2]))]
+    core = [("ch", c) for c in r.sample([0x61, 0x62, 0x63, 0x31, 0x5F, 0x7A, 0x41, 0xE9, 0x2D], r.choice([2, 3, 3, 3]))]
+    after = [("dot",)] if r.random() < 0.75 else [low()]
+    right = [low() for _ in range(r.choice([0, 1, 1, 2]))] + [("ch", r.choice([0x79, 0x20, 0x62, 0x39]))]
+    run = left + [("dot",)] * r.choice([1, 1, 1, 2]) + core + after + right
+    while len(run) < 6:
+        run.insert(len(left), low())
+    return run[:12]
+
+
 def gen_regex(r):
     """loops over zero-width assertions hang the engine (listed finding C03-zero-width-loop-hang, kept in the corpus):
     the random stream avoids them, every hang would cost a timeout"""
+    if r.random() < 0.10:
+        run = gen_atom_run(r)
+        u = r.random()
+        if u < 0.2:
+            return [[("rep", ("ch", r.choice(LETTERS)), "*", 0, None)] + run], True
+        if u < 0.35:
+            return [run, [("ch", r.choice(LETTERS)), ("ch", r.choice(LETTERS))]], True
+        return [run], True
     while True:
         greedy = r.random() < 0.6
         g = G(r, greedy)
         alts = g.top()
         t = rc.ast_text(rc.norm(alts_ast(alts, greedy)))
-        if not zero_width_loop(t) and not plus_backjump(t, null_only=True):      # (a{0})+ reads out of bounds: listed finding, kept in the corpus
+        if not zero_width_loop(t):
             return alts, greedy
 
 
@@ -331,6 +358,11 @@ def lit_text(b):
 
 def gen_matches_case(r, cid):
     alts, greedy = gen_regex(r)
+    if r.random() < 0.12:
+        # `(e)*$`: when the operand does not end with an instance of e the only match is the empty one at the very end
+        w = [[("rep", ("grp", alts), "*", 0, None), ("eol",)]]
+        if not zero_width_loop(rc.ast_text(rc.norm(alts_ast(w, greedy)))):
+            alts = w
     rfl = r.choice(["", "", "i", "s", "is"])
     text = alts_text(alts, not greedy, r)
     ast = rc.norm(alts_ast(alts, greedy))
@@ -345,16 +377,6 @@ def gen_matches_case(r, cid):
     meta = dict(kind="matches", regex=text, reflags=rfl, greedy=greedy, operand=hx(s), ext=use_ext, has_rep=has_rep(alts), nodes=rc.count_nodes(ast))
     line = "%s%s src=%s re=%s fl=%s mstr=%s buf=00" % (cid, ext, hx(rule), rc.ast_text(ast), rfl or "-", hx(s))
     return line, meta
-
-
-def no_backward_code(h_re_line):
-    """True when every automaton entry of string 0 has no backward code (h_re acm= token)"""
-    tok = [t for t in h_re_line.split() if t.startswith("acm=")]
-    if not tok or tok[0] == "acm=-":
-        return False
-    ents = [e.split(":") for e in tok[0][4:].split(";")]
-    mine = [e for e in ents if e[0] == "0"]
-    return bool(mine) and all(e[3] == "-" for e in mine)
 
 
 def parse_ast_text(s):
@@ -402,23 +424,6 @@ def nullable(n):
     return False
 
 
-def killed_fiber_sig(ast_text):
-    """signature of C03-continue-killed-fiber: a zero-width node and a repeat with a nullable body"""
-    try:
-        t = parse_ast_text(ast_text)
-    except Exception:
-        return False
-    zw = [False]; loop = [False]
-
-    def go(n):
-        if n[0] == "zero" and n[1] != "e": zw[0] = True
-        if n[0] in ("star", "plus", "range") and nullable(n[1]): loop[0] = True
-        for x in n[1:]:
-            if isinstance(x, tuple): go(x)
-    go(t)
-    return zw[0] and loop[0]
-
-
 def zero_width_loop(ast_text):
     """signature of C03-zero-width-loop-hang: a repeat whose body is nullable and contains a zero-width assertion"""
     def has_zero(n):
@@ -428,37 +433,6 @@ def zero_width_loop(ast_text):
     def go(n):
         if n[0] in ("star", "plus", "range") and nullable(n[1]) and has_zero(n[1]):
             return True
-        return any(go(x) for x in n[1:] if isinstance(x, tuple))
-    try:
-        return go(parse_ast_text(ast_text))
-    except Exception:
-        return False
-
-
-def ref_off(n):
-    """offset of the instruction _yr_re_emit records for a node inside the node's code (None = null reference)"""
-    k = n[0]
-    if k == "zero": return None if n[1] == "e" else 0
-    if k == "cat": return ref_off(n[1])
-    if k == "plus": return ref_off(n[1])
-    if k == "range":
-        lo, hi = n[2], n[3]
-        if lo > 0: return ref_off(n[1])
-        if hi > lo + 1 or hi > 2: return 0
-        if hi > lo or hi > 1:
-            r = ref_off(n[1])
-            return None if r is None else r + (4 if hi > lo else 0)
-        return None
-    return 0
-
-
-def plus_backjump(ast_text, null_only=False):
-    """signature of C03-plus-backjump: a `+` whose operand's recorded instruction is not the first byte of its code"""
-    def go(n):
-        if n[0] == "plus":
-            r = ref_off(n[1])
-            if r is None or (r != 0 and not null_only):
-                return True
         return any(go(x) for x in n[1:] if isinstance(x, tuple))
     try:
         return go(parse_ast_text(ast_text))
@@ -504,7 +478,17 @@ CORPUS = [
     ("/(\\B)*?b|./", "", "a", b"-\xe9a", "A(C(*l(B),l62),.)"), ("/(\\B)*b|./", "", "a", b"-\xe9a", "A(C(*g(B),l62),.)"),
     ("/^(a{,2}?){4,4}?/", "", "a", b"Aaaaaaa", "C(^,Rl4,4(Rl0,2(l61)))"),
     ("/(a{0})+b/", "", "a", b"ab", "C(+g(Rg0,0(l61)),l62)"), ("/x(a?b)+c/", "", "a", b"xabbc xbabc"),
+    ("/[0-0]/", "wide fullword", "wf", b"a\x000\x00"), ("/[0-0]/", "wide fullword", "wf", b"a0\x00"), ("/[0-0]x*/", "wide fullword", "wf", b"0\x00a\x00"),
+    ("/x.abc.y/", "", "a", b"--x1abc2y--abc"), ("/x(aa|a){4,6}y/", "", "a", b"xaaaay xaaay"), ("/x[a-f\\W]y/", "", "a", b"xay x-y xgy"),
+    ("/x[\\Wa-f]y/", "", "a", b"xay x-y xgy"), ("/x[^\\da-c]y/", "", "a", b"xay x1y xdy"),
     ("/[^a-c]x/i", "", "ai", b"Ax dx Dx"), ("/a.c/s", "wide", "ws", b"a\0\n\0c\0a\0b\0c\0"), ("/(a*)*b/", "", "a", b"aaab"), ("/(a|)*b/", "", "a", b"aab"),
+]
+
+
+# `matches` regression cases: (regex, regex flags, operand)
+MCORPUS = [
+    ("x*$", "", b"abc"), ("$", "", b"abc"), ("\\b$", "", b"ab"), ("(a|b)*$", "", b"abc"), ("^$", "", b"a"), ("c$", "", b"abc"), ("x(a?b)+c", "", b"-xbc"),
+    ("(a{0})+b", "", b"ab"), ("a*?$", "s", b"b\n"),
 ]
 
 
@@ -528,6 +512,11 @@ def run(tier, replay=None):
         rule = "rule r { strings: $a = %s %s condition: #a >= 0 }" % (rx, mods)
         cases.append("%s src=%s re=%s fl=%s buf=%s code=1 fx=1" % (cid, hx(rule), ent[4] if len(ent) > 4 else "?", fl, hx(buf)))
         metas[cid] = dict(kind="string", regex=rx, mods=mods, corpus=True)
+    for i, (rx, rfl, opnd) in enumerate(MCORPUS):
+        cid = "km%d" % i
+        rule = "rule r { strings: $t = /%s/%s condition: \"%s\" matches /%s/%s or #t < 0 }" % (rx, rfl, lit_text(opnd), rx, rfl)
+        cases.append("%s src=%s re=? fl=%s mstr=%s buf=00" % (cid, hx(rule), rfl or "-", hx(opnd)))
+        metas[cid] = dict(kind="matches", regex=rx, reflags=rfl, operand=hx(opnd), corpus=True)
     for i in range(ns):
         line, meta = gen_string_case(r, "s%d" % i)
         cases.append(line); metas[line.split(" ", 1)[0]] = meta
@@ -582,12 +571,6 @@ def run(tier, replay=None):
                 continue
             crashed.add(cid)
             toks = dict(t.split("=", 1) for t in c.split()[1:] if "=" in t)
-            if "C03-continue-killed-fiber" in kf and "yr_re_exec: Assertion" in errx and killed_fiber_sig(toks.get("re", "")):
-                known_hits.setdefault("C03-continue-killed-fiber", []).append(cid)
-                continue
-            if "C03-plus-backjump" in kf and plus_backjump(toks.get("re", ""), null_only=True):
-                known_hits.setdefault("C03-plus-backjump", []).append(cid)
-                continue
             if "C03-zero-width-loop-hang" in kf and rcx == "timeout" and zero_width_loop(toks.get("re", "")):
                 known_hits.setdefault("C03-zero-width-loop-hang", []).append(cid)
                 continue
@@ -633,12 +616,6 @@ def run(tier, replay=None):
             hist["matches_true" if spec["M"] else "matches_false"] += 1
             distinct.add(("m", meta.get("regex"), meta.get("operand")))
             if got != spec["M"]:
-                if spec["onlyEnd"] and got == 0 and "C03-matches-empty-at-end" in kf:
-                    known_hits.setdefault("C03-matches-empty-at-end", []).append(cid)
-                    continue
-                if got == 0 and "C03-plus-backjump" in kf and plus_backjump(toks["re"]):
-                    known_hits.setdefault("C03-plus-backjump", []).append(cid)
-                    continue
                 if got == 0 and "C03-nullable-repeat" in kf and nullable_repeat(toks["re"]):
                     known_hits.setdefault("C03-nullable-repeat", []).append(cid)
                     continue
@@ -661,18 +638,9 @@ def run(tier, replay=None):
         hist["reported"] += len(ms)
         if spec.get("a") or spec.get("w"):
             distinct.add(("s", meta.get("regex"), meta.get("mods"), toks["buf"]))
-        if vs and "w" in fl and "f" in fl and "C03-wide-fullword-noatom" in kf and no_backward_code(al):
-            spec2 = dict(spec); spec2["wf"] = spec.get("wn", {})
-            vs2, known2 = rc.judge(ms, spec2, "a" in fl, "w" in fl, True, blen)
-            if not vs2:
-                known_hits.setdefault("C03-wide-fullword-noatom", []).append(cid)
-                vs, known = [], known2
         if vs and "C03-lazy-dot-chain" in kf and lazy_dot_chain(toks["re"]):
             known_hits.setdefault("C03-lazy-dot-chain", []).append(cid)
             vs, known = [], []
-        if vs and "C03-plus-backjump" in kf and all(v.startswith("missed") for v in vs) and plus_backjump(toks["re"]):
-            known_hits.setdefault("C03-plus-backjump", []).append(cid)
-            vs = []
         if vs and "C03-nullable-repeat" in kf and all(v.startswith("missed") for v in vs) and nullable_repeat(toks["re"]):
             known_hits.setdefault("C03-nullable-repeat", []).append(cid)
             vs = []
@@ -692,13 +660,10 @@ def run(tier, replay=None):
 
     def excuse(line, kind, err):
         toks = dict(t.split("=", 1) for t in line.split()[1:] if "=" in t)
-        if "C03-plus-backjump" in kf and plus_backjump(toks.get("re", ""), null_only=(kind != "subset")):
-            return True
         if kind == "emit":
             return False
         if kind == "crash":
-            return ("C03-continue-killed-fiber" in kf and "yr_re_exec: Assertion" in err and killed_fiber_sig(toks.get("re", ""))) or \
-                   ("C03-zero-width-loop-hang" in kf and zero_width_loop(toks.get("re", "")))
+            return "C03-zero-width-loop-hang" in kf and zero_width_loop(toks.get("re", ""))
         return "C03-nullable-repeat" in kf and nullable_repeat(toks.get("re", ""))
     wres, wfound = rc.check_wfx(core, chk, b, [c for c in cases if c.split(" ", 1)[0] not in hz], excuse, found_so_far=found) if lres.get("driver_ok") else ({}, False)
     found = found or wfound
